@@ -11,6 +11,7 @@ import Hive.Proofs.TypedUpgrade
 import Hive.Proofs.TypedOwn
 import Hive.Proofs.TypedDirty
 import Hive.Proofs.TypedStoreCode
+import Hive.Proofs.TypedBulk
 /-!
 # C06 — TypedValue / TypedStore are transparent, error-faithful typed views
 
@@ -337,8 +338,49 @@ theorem C06_store_iterate_keys (KC : Codec K) (m : Store) (pfx : Bytes) (bwd : B
 nothing, otherwise exactly the keys with the prefix (resp. all keys) are gone. -/
 theorem C06_store_delete_prefix_clear (m : Store) (pfx : Bytes) (F : SFaults) :
     (F.kv1 = true → sdeletePrefix m pfx F = (m, some .kv) ∧ sclear m F = (m, some .kv)) ∧
-    (F.kv1 = false → sdeletePrefix m pfx F = (m.filter (fun e => !pfx.isPrefixOf e.1), none) ∧ sclear m F = ([], none)) := by
-  constructor <;> intro h <;> simp [sdeletePrefix, sclear, Store.deletePrefix, h]
+    (F.kv1 = false → F.kvAfter = none →
+      sdeletePrefix m pfx F = (m.filter (fun e => !pfx.isPrefixOf e.1), none) ∧ sclear m F = ([], none)) := by
+  constructor <;> intro h
+  · simp [sdeletePrefix, sclear, bulkDelete, h]
+  · intro h2; simp [sdeletePrefix, sclear, bulkDelete, Store.deletePrefix, h, h2]
+
+/-- **Bulk operations over a store that fails part-way.**  `DeletePrefix` / `Clear` are pass-throughs: whatever the
+underlying store reports is what the caller gets (unwrapped), and what is left behind is what the store left.  With the
+store's bulk deletion failing up front (`kv1`), after having removed `n` entries (`kvAfter = some n` with more than `n`
+to remove), or not at all, for every store content and prefix: (1) success ⇒ exactly the selected entries are gone;
+(2) a failure is reported, as the store's own error; (3) the remaining store is a sub-list of the old one — nothing added,
+changed or reordered; (4) **no entry outside the prefix is touched**, whatever happens; (5) an up-front failure leaves
+everything; a part-way failure leaves exactly the old store minus the first `n` selected entries (in the store's iteration
+order) — so a caller that sees the error can still rely on (3) and (4), and on nothing else.
+(`Iterate` / `IterateKeys` over a store that fails after `n` entries: `C06_store_iterate_stops_at_first_decode_error`,
+third clause — the callback has then seen a prefix of the decodable prefix, and the store's error is returned.) -/
+theorem C06_store_bulk_partial (m : Store) (pfx : Bytes) (F : SFaults) :
+    let p : Bytes × Bytes → Bool := fun e => pfx.isPrefixOf e.1
+    let r := sdeletePrefix m pfx F
+    let c := sclear m F
+    ((r.2 = none → r.1 = m.deletePrefix pfx) ∧ (∀ e, r.2 = some e → e = .kv) ∧ r.1.Sublist m ∧
+      r.1.filter (fun e => !p e) = m.filter (fun e => !p e) ∧
+      (F.kv1 = true → r = (m, some .kv)) ∧
+      (F.kv1 = false → r.2 ≠ none → ∃ n, F.kvAfter = some n ∧ n < (m.filter p).length ∧ r.1 = m.dropFirst p n ∧
+        (r.1.filter p).length = (m.filter p).length - n)) ∧
+    ((c.2 = none → c.1 = []) ∧ (∀ e, c.2 = some e → e = .kv) ∧ c.1.Sublist m ∧
+      (F.kv1 = true → c = (m, some .kv)) ∧
+      (F.kv1 = false → c.2 ≠ none → ∃ n, F.kvAfter = some n ∧ n < m.length ∧ c.1 = m.dropFirst (fun _ => true) n ∧
+        c.1.length = m.length - n)) := by
+  intro p r c
+  have h1 := bulkDelete_facts m p (m.deletePrefix pfx) F rfl
+  have h2 := bulkDelete_facts m (fun _ => true) [] F (by simp)
+  refine ⟨⟨h1.1, h1.2.1, h1.2.2.1, h1.2.2.2.1, h1.2.2.2.2.1, h1.2.2.2.2.2.1⟩, h2.1, h2.2.1, h2.2.2.1, h2.2.2.2.2.1, ?_⟩
+  intro hk hne
+  obtain ⟨n, ha, hn, hd, hc⟩ := h2.2.2.2.2.2.1 hk hne
+  have hft : ∀ l : Store, l.filter (fun _ => true) = l := fun l => by simp
+  rw [hft, hft] at hc
+  rw [hft] at hn
+  exact ⟨n, ha, hn, hd, hc⟩
+
+/-- A concrete part-way failure: three entries under the prefix, the store fails after removing one. -/
+example : sdeletePrefix [([0, 1], [1]), ([0, 2], [2]), ([0, 3], [3]), ([1, 0], [4])] [0] { kvAfter := some 1 } =
+    ([([0, 2], [2]), ([0, 3], [3]), ([1, 0], [4])], some .kv) := by decide
 
 omit [Inhabited V] in
 /-- **The typed view is the raw store.**  A successful `Set k v` leaves exactly the raw store with
